@@ -30,17 +30,17 @@ CLAIMED = {
         technique=TECH + "; call histories as solver choice variables, executed natively on the real scheduler/backend"),
     "C06": dict(
         text="%sAsserted per run: every (task, eval hash, context hash) reaches the executor at most once unless opted out, twins get the same result/error, equal expressions under one parent create one job, the outcome is the prescribed one; with the backend cache and with cache=False." % LAB,
-        note="Templates: main -> <= 3-4 branches mid -> leaf with duplicates, shared non-leaf calls, failing/caught leaves, a leaf demanding the whole limit, optional catch_all / unknown-executor branch. Real thread/process executors and prov=False jobs are outside.",
+        note="Templates: main -> <= 3-4 branches mid -> leaf with duplicates, shared non-leaf calls, failing/caught leaves, a leaf demanding the whole limit, optional catch_all / unknown-executor branch; plus the reuse template (stock executors): one call of a plain / cache_scope NONE / async task used in a catch and reached again later as the same expression or an equal call. Real thread/process executors under load and prov=False jobs are outside.",
         design="3/C08-C09-C06-C07-C12",
         technique=TECH + "; scheduler run natively under a controlled executor/queue with symbolic limits and solver-chosen schedules"),
     "C07": dict(
         text="%sEach run is compared with a reference run of the same program (fresh backend, strictly serial depth-first completions, ample resources): same returned value and the same sets of call-node, argument, value and handle hashes; a second template passes one Handle to parallel task chains under a limit." % LAB,
-        note="Two listed known findings are assumed away exactly (duplicate *failing* calls; values containing one shared result object several times) and witnessed; one defect (handle forked again after waiting for limits) was fixed.",
+        note="Further templates: equal calls written as different expressions under one parent; one Handle passed to sibling steps with lazy second arguments. Three listed known findings are assumed away exactly (duplicate *failing* calls; values containing one shared result object several times; handle fork keys following readiness order) and witnessed; one defect (handle forked again after waiting for limits) was fixed.",
         design="3/C08-C09-C06-C07-C12",
         technique=TECH + "; differential against a serial reference run; scheduler run natively with symbolic limits and solver-chosen schedules"),
     "C08": dict(
         text="%sAsserted at every submission, event and at the end: units held by submitted-and-unfinished jobs <= limit (1 if unconfigured), the scheduler's account never below what is in flight, zero when the run ends." % LAB,
-        note="Same templates as C06; limit >= 1 symbolic, demand 1 <= count <= limit symbolic, list and dict demand forms, unconfigured limit.",
+        note="Same templates as C06 plus a two-resource template (leaves demanding solver-chosen combinations of a and b, both limits symbolic); limit >= 1 symbolic, demand 1 <= count <= limit symbolic, list and dict demand forms, unconfigured limit.",
         design="3/C08-C09-C06-C07-C12",
         technique=TECH + "; scheduler run natively under a controlled executor/queue with symbolic limits and solver-chosen schedules"),
     "C09": dict(
@@ -55,7 +55,7 @@ CLAIMED = {
         technique=TECH + "; thread interleavings of the real code (line/opcode granularity via sys.settrace gating) as solver choice variables"),
     "C12": dict(
         text="%sAsserted: an uncaught failure makes run raise the same exception type and message, the failing job and each ancestor are recorded FAILED with an ErrorValue, a second execution submits the failed call again; plus solver-chosen histories of executions of one call whose body succeeds/fails with the cache on/off, and the real _get_cache on solver-chosen (result kind, cache type) pairs." % LAB,
-        note="Errors: an ordinary exception and one carrying an unpicklable attribute; <= 3-4 executions per history.",
+        note="Errors: an ordinary exception and one carrying an unpicklable attribute; <= 3-4 executions per history; plus the reuse template (stock executors): a failing call handled once by catch and reached again later, caught or uncaught.",
         design="3/C08-C09-C06-C07-C12",
         technique=TECH + "; scheduler run natively with symbolic limits and solver-chosen schedules; execution histories as solver choice variables"),
     "C13": dict(
@@ -121,7 +121,7 @@ CLAIMED = {
         technique=TECH + "; command histories as solver choice variables, executed natively on the real backend; model oracle"),
     "C25": dict(
         text="(kernel, inductive step) from an ARBITRARY handle graph of 4 states on the S4 session (any DAG, symbolic validity bits, other-name states) satisfying 'derived from invalid => invalid', the real rollback_handle invalidates exactly the strict descendants of the target. (histories) Every history of handle operations up to the bound (fork, apply call, merge, rollback, rollback through the scheduler with the handle direct / nested in arguments, re-derivation with the same or a fresh object; operands solver-chosen) is run on the real advance_handle / rollback_handle / is_valid_handle of the in-memory SQLite backend and compared after every step with the lineage model; finally the real _get_cache must replay a cached result containing a state iff the model says the state is valid.",
-        note="<= 4 (quick) / 5 (thorough) operations on one handle name; kernel: 4 states.",
+        note="<= 4 (quick) / 5 (thorough) operations on one handle name; kernel: 4 states; workflow histories: 3-4 executions of a handle-advancing task under solver-chosen code versions, cached or with cache=False.",
         design="3/C25",
         technique=TECH + "; operation histories as solver choice variables, executed natively on the real backend; lineage-model oracle"),
     "C26": dict(
